@@ -954,7 +954,7 @@ func init() {
 		},
 	})
 	// C17 — counters
-	register(&Property{ID: "C17", Pre: c17Pre, Rule: "raw-queue layer (12 % of the budget): 2-4 simulated clients enqueue/dequeue/purge/Len on one real Queue/PriorityQueue, every Len within [0, enqueues invoked]; worker layer: episodes with >=3 counter samples taken while submissions/dispatch/completions were in progress plus >=1 at-rest sample; distinct = schedule/program hash",
+	register(&Property{ID: "C17", Pre: c17Pre, Owns: []string{"C02.a"}, Rule: "raw-queue layer (12 % of the budget): 2-4 simulated clients enqueue/dequeue/purge/Len on one real Queue/PriorityQueue, every Len within [0, enqueues invoked]; worker layer: episodes with >=3 counter samples taken while submissions/dispatch/completions were in progress plus >=1 at-rest sample; distinct = schedule/program hash",
 		Gen: func(r *simrt.Rand, tier string) (Cfg, *Program) {
 			pf := baseProfile()
 			pf.ReenterPct = 8 // worker functions that call back into the library
